@@ -615,6 +615,26 @@ fn impl_use_vm(vm: &mut Vm, def: &Cell, usef: &Cell) -> String {
     r.unwrap_or_else(|_| "panic".into())
 }
 
+/// replace some numeric operands of a use (never the keyword) by forms headed by a macro keyword
+fn macro_operands(u: &Cell, rng: &mut Rng) -> Cell {
+    fn walk(c: &Cell, head: bool, rng: &mut Rng) -> Cell {
+        match c {
+            Cell::Pair(a, d) => Cell::Pair(Box::new(walk(a, head, rng)), Box::new(walk(d, false, rng))),
+            Cell::Number(_) if !head && rng.chance(1, 2) => {
+                let forms = ["(and 1 2)", "(or a b)", "(when #t 3)", "(let ((z 1)) z)", "(m 1)", "(cond (#t 1))",
+                             "(unless #f 2)", "(begin 4)"];
+                let t = forms[rng.below(forms.len() as u64) as usize];
+                marwood::parse::parse_text(t).unwrap().0
+            }
+            other => other.clone(),
+        }
+    }
+    match u {
+        Cell::Pair(a, d) => Cell::Pair(a.clone(), Box::new(walk(d, false, rng))),
+        other => other.clone(),
+    }
+}
+
 fn case_rng(seed: u64, stream: &str, idx: u64) -> Rng {
     let mut h: u64 = 0xcbf29ce484222325;
     for b in stream.bytes() {
@@ -700,6 +720,10 @@ fn worker(stream: &str, n: u64, start: u64) {
                 };
                 // an atom is not a macro use (the Vm would evaluate it to itself)
                 let u = if u.is_pair() { u } else { list(vec![sym("m")]) };
+                // a quarter of the uses get operands that are themselves macro uses (prelude macros and `m` itself):
+                // the transformer must see the use as written — an expansion driver that expands operands first
+                // shows up as a different (quoted) expansion or a different rule
+                let u = if stream == "vm" && idx % 4 == 1 { macro_operands(&u, &mut g.rng) } else { u };
                 if vm.is_none() || idx % 500 == 0 {
                     vm = Some(Vm::new());
                 }
